@@ -12,16 +12,16 @@ CHECKS = {
          "Every fully parenthesised expression tree up to 4 (thorough 5) leaves over a literal ladder and all five operators is evaluated by the real parser+evaluator and compared with an independent exact evaluator run on the generating tree; exhaustive within the stated bound.",
          "num::BigRational is exact; sizes between the ladder rungs behave like the rungs; layout/precedence are C06's subject.", "3 C01"),
  "C02": ("exploration", E1 + ": all ordered pairs of a unit-spelling set x {+,-,to} vs dimension vectors of an independent unit table",
-         "Every ordered pair of ~390 (thorough ~1000) unit spellings (all units, prefixed, products/quotients, cancelling spellings) under + - and to, plus plain-number adoption in both operand orders: Ok iff the independent table gives equal base dimensions, with exact SI value and the cast result expressed in the target unit.",
+         "Every ordered pair of ~450 (thorough ~1050) unit spellings (all units, prefixed, products/quotients, powered and prefixed-and-powered, spellings that cancel over the same or over different unit names, spellings that contribute/cancel/re-contribute a base) under + - and to, with non-zero and with zero-valued (written and computed) operands, plus plain-number adoption in both operand orders: Ok iff the independent table gives equal base dimensions, with exact SI value and the cast result expressed in the target unit.",
          "Independent unit table (tables.rs); syntactically cancelling spellings (m/m) and prefixed words the tool rejects are not judged.", "3 C02"),
  "C03": ("exploration", E1 + ": commensurable unit pairs, prefixes, powers, composites vs SI scales, plus table-free conversion laws on the real code",
-         "All ordered pairs per commensurability class x magnitudes, every prefix spelling, powers -3..3, every prefix symbol crossed with every power -3..3 (as source, as target and prefix-to-prefix), 2-4 factor composites against the table; round-trip, via-unit and scaling laws evaluated on the real code only (no table).",
+         "All ordered pairs per commensurability class x magnitudes, every prefix spelling, powers -3..3, every prefix symbol crossed with every power -3..3 (as source, as target and prefix-to-prefix), 2-4 factor composites and composites naming the same units on both sides with differently distributed powers against the table; round-trip, via-unit, unparenthesised cast chains and scaling laws evaluated on the real code only (no table).",
          "Independent unit table for the direct oracle; the laws need none. Words misread by the unit lexer are left to C05.", "3 C03"),
  "C04": ("exploration", E1 + ": products/quotients/powers of quantities vs SI value and dimension arithmetic",
-         "All pairs of 39 quantity spellings under * and / (either side parenthesised), all triples over a core, (q)^n for n=-3..3 for every documented unit; SI value and base dimensions must equal the reference evaluation of the tree.",
+         "All pairs of 55 quantity spellings (incl. one unit under several prefixes and powers, derived-per-base compounds) under * and / (either side parenthesised), all triples over a core, (q)^n for n=-3..3 for every documented unit, one unit under two prefixes and two powers on either side of * and /, zero-valued quantities (written and computed) under ^n, * and /; SI value and base dimensions must equal the reference evaluation of the tree.",
          "Independent unit table; display unit never compared.", "3 C04"),
  "C05": ("exploration", E1 + ": the whole unit vocabulary (names x prefixes, 2- and 3-name concatenations, unit expressions) vs independent segmentation",
-         "Every name x every prefix spelling, every 2-name concatenation, short 3-name concatenations and all unit expressions of <=3 (4) items through both entry points; an accepted word must mean one of its valid segmentations over the independent table, bare documented names their own (standard) meaning.",
+         "Every name x every prefix spelling, every 2-name concatenation, short 3-name concatenations and all unit expressions of <=3 (4) items through both entry points; an accepted word must mean one of its valid segmentations over the independent table, bare documented names their own (standard) meaning; every documented unit under the powers 1,-1,2,-2,3 is converted to its dimensions spelled in base units (exact scale^p), which exercises the tool's own per-unit expansion.",
          "Independent table; nine recorded findings (logos lexer drops characters; three test-pinned definitions) are listed in known_findings.txt.", "3 C05"),
  "C06": ("exploration", E1 + ": operator sequences x bracketings x blank layouts vs the documented precedence table",
          "All operator sequences up to length 5 over + - * / ^ with every bracketing (Catalan), minimal and full parentheses, redundant parentheses, function-argument position, `to` chains, and blank layouts (all combinations of homogeneous gaps for <=2 operators, uniform + 1/2-slot deviations beyond, deviations including gaps that mix spaces and tabs) are evaluated and compared with the reference evaluation of the tree the documented grammar prescribes.",
@@ -33,37 +33,37 @@ CHECKS = {
          "Every value of a rational grid (small p/q, p/q*10^k for k in -40..40, neighbours of powers of ten) under every limit x exponent_limit spec (quick 42, thorough 300), mark on and off; the printed text is re-read by an own reader and must be the truncation toward zero with mark iff something non-zero was cut.",
          "Magnitudes between grid points behave like the points.", "3 C08"),
  "C10": ("exploration", E1 + ": rational grid x {floor,ceil,round,round(x,n)} vs integer-arithmetic definitions, in release and debug-assertion builds",
-         "Every p/q of a grid (negatives, integers, halves, boundary +-10^-k) through floor/ceil/round/round(x,n), n=-6..6, units carried, wrong arities; compared with exact integer definitions; both build profiles so debug-only assertions count.",
+         "Every p/q of a grid (negatives, integers, halves, boundary +-10^-k for k<=7, and integer/half +-10^-k for k in 8..25 at magnitudes 0..2^64) through floor/ceil/round/round(x,n), n=-6..6, units carried, wrong arities; compared with exact integer definitions; both build profiles so debug-only assertions count.",
          "Non-integer digits arguments are not judged.", "3 C10"),
  "C09": ("exploration", E1 + ": magnitudes x scale pairs x chains x non-alone positions vs the affine formulas",
          "12 magnitudes x 36 scale-spelling pairs, all chains up to length 4, every ordered pair of 21 prefixed scale words (m k n G milli kilo on K, degC, degF) x 5 magnitudes and chains through a prefixed scale, and every placement of a scale that is not alone with power one (powers, products, quotients) - the latter must be refused or treated as an interval.",
          "The affine formulas are written out in the harness.", "3 C09"),
  "C11": ("exploration", E1 + ": token soups, unicode strings and 1/2-edit neighbourhoods of seeds; no panic/abort/hang, located errors; both build profiles and the real binary on a stride",
-         "All token sequences <=3 (4) over 44 tokens x joiner patterns, all unicode strings <=4 (5) over 30 code points, every 1-edit (thorough 2-edit) of 60 seeds, in release and debug-assertion builds; each result must display or be an error with an in-bounds char-boundary range that the diagnostic renderer accepts; worker processes attribute aborts and hangs to the input.",
+         "All token sequences <=3 (4) over 46 tokens (incl. values that are zero only after a unit conversion) x joiner patterns, all unicode strings <=4 (5) over 30 code points, every 1-edit (thorough 2-edit) of 66 seeds, in release and debug-assertion builds; each result must display or be an error with an in-bounds char-boundary range that the diagnostic renderer accepts; worker processes attribute aborts and hangs to the input.",
          "Inputs outside the statement's numeric bounds (>3-digit exponents, >2-digit powers) or with possibly astronomically large values are counted and skipped.", "3 C11"),
  "C12": ("exploration", E1 + ": all strings up to length 5 (thorough 6) over a 40-symbol alphabet through lexer and parser",
-         "105 M (thorough 4.2 G) strings: tokens non-empty, on char boundaries, tile the input; the tree's token leaves equal the token stream.",
+         "105 M (thorough 4.2 G) strings, every sequence of up to 6 whole tokens over a 12-token alphabet (3 M), and every string up to length 3 parsed right after a unit string with trailing content went through str::parse::<Compound> on the same thread: tokens non-empty, on char boundaries, tile the input; the tree's token leaves equal the token stream.",
          "Longer strings only via C11.", "3 C12"),
  "C13": ("exploration", E1 + ": field-law instances over literal quantities and every shipped fact, both sides evaluated by the real code",
-         "Commutativity over pairs of ~125 literal quantities and ~770 facts, a-a, a/a for all, associativity and distributivity over a core of triples; both sides compared in SI normal form within one Db instance.",
+         "Commutativity over pairs of ~140 literal quantities (incl. prefixed bases, one unit under several prefixes and powers, derived-per-base compounds) and ~770 facts, a-a, a/a for all, associativity and distributivity over a core of triples; both sides compared in SI normal form within one Db instance.",
          "Independent unit table for the SI normal form; plain-number adoption and zero divisors are outside the laws' preconditions.", "3 C13"),
  "C14": ("model_checking", "stateless depth-first schedule exploration of the real index build under a controlled scheduler at tantivy's layout-determining seams (vendored tantivy with gates), plus session histories mem / disk-first / disk-reopen / disk-rebuild",
-         "Every assignment of documents to indexing workers (symmetry-reduced), every order of equally sized segments, merge timing and merge input order is enumerated on the real Db::in_memory()/Db::open() over reduced data sets of shipped constants that tie for the ambiguous probes; every session of every execution must answer the probe set like the reference execution (and own-word probes must find their constant); on-disk layouts are read back from the real index; the full shipped data runs under corner schedules, each followed by every single deviation at every tie-order and merge-timing point (so a build that leaves several equal-sized segments is explored in every segment order).",
+         "Every assignment of documents to indexing workers (symmetry-reduced), every order of equally sized segments, merge timing and merge input order is enumerated on the real Db::in_memory()/Db::open() over reduced data sets of shipped constants that tie for the ambiguous probes; every session of every execution must answer the probe set like the reference execution (and own-word probes must find their constant); on-disk layouts are read back from the real index; the full shipped data runs under corner schedules, each followed by every single deviation at every tie-order and merge-timing point (so a build that leaves several equal-sized segments is explored in every segment order). Probes: every constant's full word set, every distinct single word of the data set, ambiguous prefixes; every probe is asked twice per session (one database answering differently is a violation in itself).",
          "Layout depends on scheduling only through the four gated seams (argued in DESIGN 2.6, cross-checked by reading real on-disk layouts back); vendored tantivy = registry 0.19.2 + vendor/tantivy-gates.patch (checked in setup); hook H1 (asset directory seam) supplies the reduced data sets.", "3 C14"),
  "C15": ("fault_enumeration", "exhaustive crash-point (and torn-write) enumeration of the real start-up under an LD_PRELOAD fault injector, crossed with prior directory states and followed by crash-free starts",
-         "The real Db::open() is killed before every one of its file-system mutations (every point; thorough also torn writes and second crashes) from each prior directory state; after each crash: meta.json current => index complete (checked with tantivy independently), and two crash-free starts must answer the probe set exactly like a fresh in-memory database. Every listed prior state (absent, other version, other data, missing/truncated/garbage metadata incl. every proper prefix, missing index directory) is also started crash-free.",
+         "The real Db::open() is killed before every one of its file-system mutations (every point; thorough also torn writes and second crashes) from each prior directory state; after each crash: meta.json current => index complete (checked with tantivy independently), and two crash-free starts must answer the probe set exactly like a fresh in-memory database. Every listed prior state (absent, other major version, next patch version / build suffix over an index with other content, other data, missing/truncated/garbage metadata incl. every proper prefix, missing index directory) is also started crash-free.",
          "Process-crash model (no power-loss reordering); tantivy's raw-syscall renames are bracketed by interposed calls; the crashed directory is the replay artefact.", "3 C15"),
  "C16": ("exploration", E1 + ": every shipped constant x every permutation of its words",
-         "All 878 constants decoded independently; every typeable permutation of their words is looked up with descriptions on.",
+         "All 878 constants decoded independently; every typeable permutation of their words is looked up with descriptions on; the returned constant must carry the words and its value and unit must equal those stored in the data file (read without the subject's types).",
          "One in-memory Db per worker.", "3 C16"),
  "C17": ("exploration", E1 + ": all derived units x powers x prefixes, compounds, rational grid, every shipped constant through encode/decode",
-         "CBOR (and JSON for rationals) round trips; ids pairwise distinct and equal to the documented ids pinned in the harness; decoded units are the same statics.",
+         "CBOR (and JSON for rationals) round trips incl. machine-word boundaries 2^k-1, 2^k, 2^k+1 (k=7..128) as numerator and denominator and compounds as the parser builds them from every prefix spelling x 16 unit words x 5 shapes; ids pairwise distinct and equal to the documented ids pinned in the harness; decoded units are the same statics.",
          "serde_cbor/serde_json are faithful carriers.", "3 C17"),
  "C19": ("exploration", E1 + ": query family x {default,--exact} through the real binary vs text rebuilt from library results",
-         "Value shapes x unit shapes x error/multi-result/fact compositions, every documented unit alone / squared / as denominator / in products and quotients / prefixed, 2- and 3-digit exponents, both modes, run through the `any` binary built from /repo and compared line by line with the stated printing rule applied to the library's results; every printed unit is additionally re-read with the harness's own vocabulary table and must denote the computed unit (SI scale and dimensions), with a blank iff it has a numerator part and no plural form when the value is one.",
+         "Value shapes x unit shapes x error/multi-result/fact compositions, every documented unit alone / squared / as denominator / in products and quotients / prefixed, 2- and 3-digit exponents, negative tiny/huge values, every ordered pair and triple of six result kinds in one query, both modes, run through the `any` binary built from /repo and compared line by line with the stated printing rule applied to the library's results; every printed unit is additionally re-read with the harness's own vocabulary table and must denote the computed unit (SI scale and dimensions), with a blank iff it has a numerator part and no plural form when the value is one; in decimal mode the printed number is re-read and judged against the value with C08's oracle.",
          "Decimal rendering is taken from the library (C08 judges it); no exit code is required; two display-only names (`fl oz`, `g` for gforce) are aliased in the re-reader.", "3 C19"),
  "C18": ("model_checking", "explicit-state search over operation histories executed on the real Db (state = history, canonicalised by probe-set answers) plus exhaustive expression enumeration",
-         "All histories of length <=3 (4) over 18 operations (9 queries incl. a word shared by several constants, a full word set containing it, and a three-result query failing in the middle; describe on/off) on one shared Db: every step must answer as on a fresh Db and leave the probe-set answers unchanged; 175 multi-result queries whose computed results must all be described whatever fails around them; all expressions with <=3 operands over literals and fact phrases with describe on/off.",
+         "All histories of length <=3 (4) over 18 operations (9 queries incl. a word shared by several constants, a full word set containing it, and a three-result query failing in the middle; describe on/off) on one shared Db: every step must answer as on a fresh Db and leave the probe-set answers unchanged; all histories <=3 over 20 lookup-free unit/number/function queries against hand-written exact expectations; histories over up to 16 nearly colliding full word sets against the independently decoded constants; 440 multi-result queries (incl. casts) whose computed results must all be described whatever fails around them; every distinct single word of the data set (described constant = value returned); all expressions with <=3 operands over literals and fact phrases with describe on/off.",
          "The model is the implementation itself (no abstraction): every explored trace is an implementation trace.", "3 C18"),
 }
 
